@@ -8,7 +8,7 @@ T = pg.typing
 MISSING = pg.MISSING_VALUE
 
 TIERS = {
-    'quick': dict(shards=8, cases=250, pool_min=20, pool_max=30),
+    'quick': dict(shards=8, cases=160, pool_min=20, pool_max=30),
     'thorough': dict(shards=16, cases=1200, pool_min=20, pool_max=30),
 }
 RULE = ('case = one pool of 20-30 values built to collide: a small palette of atoms '
@@ -785,6 +785,13 @@ def first_difference(a, b):
     ka, kb = list(a.keys()), list(b.keys())
     m = min(len(ka), len(kb))
     if ka[:m] != kb[:m]:
+      return None
+    # The documentation does not say in which order the keys of a dict are
+    # walked (insertion order or a canonical order): the rule is applied only
+    # where both readings coincide, i.e. both key sequences are already sorted
+    # (ints before strs).
+    canon = lambda ks: sorted(ks, key=lambda k: (isinstance(k, str), k))
+    if ka != canon(ka) or kb != canon(kb):
       return None
     xs, ys = [a[k] for k in ka], [b[k] for k in kb]
     what = 'dicts with the same key sequence'
